@@ -1,5 +1,5 @@
 import Mathlib.Algebra.Ring.Int.Defs
-import PtnModel.Proofs.OgMerge
+import PtnModel.Proofs.OgHistory
 /-!
 # C16 — operator-graph rewrites preserve the denoted operator and graph consistency
 
@@ -39,55 +39,48 @@ theorem flip_sem (g : Graph κ) (h : Valid g) :
 example : Valid exampleGraph ∧ exampleGraph.denF [1, 2] = 2 ∧ exampleGraph.flip.denF [2, 1] = 2 :=
   ⟨exampleGraph_valid, by decide, by decide⟩
 
-/-- **Renaming an edge id** (`rename_edge_id`), partial: whenever the call succeeds on a structurally valid graph,
-the result is structurally valid again (so the clauses of `is_consistent` on nodes, edges, terminals hold:
-`structOk = true`) and denotes the same operator.
-*Missing for the full clause:* that the level clause of `is_consistent` (`levelsOk`) also still holds
-(carried by the correspondence check, which compares `is_consistent` after every step). -/
-theorem rename_edge_partial (g g' : Graph κ) (cur new : Int) (h : SValid g)
+/-- **Renaming an edge id** (`rename_edge_id`): whenever the call succeeds on a valid graph, the result is valid again
+(it passes the consistency check) and denotes the same operator. -/
+theorem rename_edge_sem (g g' : Graph κ) (cur new : Int) (h : Valid g)
     (hr : g.renameEdgeId cur new = .ok g') :
-    SValid g' ∧ g'.structOk = true ∧ ∀ w : Word, g'.denF w = g.denF w :=
-  ⟨h.renameEdgeId hr, (h.renameEdgeId hr).structOk, fun w => denF_renameEdgeId h hr w⟩
+    Valid g' ∧ g'.isConsistent = true ∧ ∀ w : Word, g'.denF w = g.denF w :=
+  ⟨h.renameEdgeId hr, (h.renameEdgeId hr).isConsistent, fun w => denF_renameEdgeId h.1 hr w⟩
 
 /-- non-vacuity: renaming edge 11 to 3 in `exampleGraph` succeeds -/
-example : SValid exampleGraph ∧
+example : Valid exampleGraph ∧
     (exampleGraph.renameEdgeId 11 3).toOption.map (fun g' => (g'.denF [0, 2], g'.isConsistent)) = some (-1, true) :=
-  ⟨exampleGraph_valid.1, by decide⟩
+  ⟨exampleGraph_valid, by decide⟩
 
-/-- **Renaming a node id** (`rename_node_id`), partial: whenever the call succeeds on a structurally valid graph,
-the result is structurally valid again (`structOk = true`) and denotes the same operator.
-*Missing for the full clause:* the level clause of `is_consistent` (`levelsOk`) for the result. -/
-theorem rename_node_partial (g g' : Graph κ) (cur new : Int) (h : SValid g)
+/-- **Renaming a node id** (`rename_node_id`): whenever the call succeeds on a valid graph, the result is valid again
+(it passes the consistency check) and denotes the same operator. -/
+theorem rename_node_sem (g g' : Graph κ) (cur new : Int) (h : Valid g)
     (hr : g.renameNodeId cur new = .ok g') :
-    SValid g' ∧ g'.structOk = true ∧ ∀ w : Word, g'.denF w = g.denF w :=
-  ⟨h.renameNodeId hr, (h.renameNodeId hr).structOk, fun w => denF_renameNodeId h hr w⟩
+    Valid g' ∧ g'.isConsistent = true ∧ ∀ w : Word, g'.denF w = g.denF w :=
+  ⟨h.renameNodeId hr, (h.renameNodeId hr).isConsistent, fun w => denF_renameNodeId h.1 hr w⟩
 
 /-- non-vacuity: renaming the start node 5 to -8 in `exampleGraph` succeeds (terminal id follows) -/
-example : SValid exampleGraph ∧
+example : Valid exampleGraph ∧
     (exampleGraph.renameNodeId 5 (-8)).toOption.map (fun g' => (g'.nidTerminal, g'.denF [1, 2], g'.isConsistent))
       = some ((-8, 7), 2, true) :=
-  ⟨exampleGraph_valid.1, by decide⟩
+  ⟨exampleGraph_valid, by decide⟩
 
 /-- **Merging two mergeable edges** (`merge_edges`, both cases: two edges between the same pair of nodes, whose operators
-are added; two equal-operator edges from different single-output upstream nodes of equal charge, whose nodes are merged),
-partial: whenever the call succeeds on a structurally valid graph for two different edge ids, the result is
-structurally valid again (`structOk = true`), has the same terminals and denotes the same operator. The conditions
-asserted by the code are exactly what a successful call provides.
-*Remaining hypothesis:* `MergeTermOk` (if the surviving upstream node is a terminal, the absorbed node has no further
-upstream edges) -- without it the code produces a terminal node with edges in its own direction on graphs that contain an
-unconnected non-terminal node (reported). *Missing for the full clause:* the level clause `levelsOk` for the result. -/
-theorem merge_edges_partial (g g' : Graph κ) (eid1 eid2 : Int) (d : Bool) (h : SValid g) (hne : eid1 ≠ eid2)
-    (hT : MergeTermOk g eid1 eid2 d) (hr : g.mergeEdges eid1 eid2 d = .ok g') :
-    SValid g' ∧ g'.structOk = true ∧ g'.nidTerminal = g.nidTerminal ∧ ∀ w : Word, g'.denF w = g.denF w := by
-  obtain ⟨hv, ht, hd⟩ := mergeEdges_sem h hne hT hr
-  exact ⟨hv, hv.structOk, ht, hd⟩
+are added; two equal-operator edges from different single-output upstream nodes of equal charge, whose nodes are merged):
+whenever the call succeeds on a valid graph for two different edge ids, the result is valid again (it passes the
+consistency check), has the same terminals and denotes the same operator. The conditions asserted by the code
+(incl. "a terminal node is never absorbed / never acquires upstream edges") are exactly what a successful call provides. -/
+theorem merge_edges_sem (g g' : Graph κ) (eid1 eid2 : Int) (d : Bool) (h : Valid g) (hne : eid1 ≠ eid2)
+    (hr : g.mergeEdges eid1 eid2 d = .ok g') :
+    Valid g' ∧ g'.isConsistent = true ∧ g'.nidTerminal = g.nidTerminal ∧ ∀ w : Word, g'.denF w = g.denF w := by
+  obtain ⟨_, ht, hd⟩ := mergeEdges_sem h.1 hne hr
+  exact ⟨h.mergeEdges hne hr, (h.mergeEdges hne hr).isConsistent, ht, hd⟩
 
 /-- non-vacuity: the two parallel edges 10, 11 of `exampleGraph` merge (direction 1: common head -2);
 the merged edge carries the operators of both -/
-example : SValid exampleGraph ∧ (10 : Int) ≠ 11 ∧
+example : Valid exampleGraph ∧ (10 : Int) ≠ 11 ∧
     (exampleGraph.mergeEdges 10 11 true).toOption.map (fun g' => (g'.edges.map (·.1), g'.denF [1, 2], g'.denF [3, 2], g'.isConsistent))
       = some ([10, 12], 2, 1, true) :=
-  ⟨exampleGraph_valid.1, by decide, by decide⟩
+  ⟨exampleGraph_valid, by decide, by decide⟩
 
 /-- a graph on which the node-merging case applies: two equal-operator edges 20, 21 from the single-output nodes 1, 2 -/
 def exampleGraph2 : Graph ℤ :=
@@ -95,16 +88,107 @@ def exampleGraph2 : Graph ℤ :=
     edges := [(30, ⟨30, (0, 1), [(1, 1)]⟩), (31, ⟨31, (0, 2), [(2, 3)]⟩), (20, ⟨20, (1, 3), [(5, 1)]⟩), (21, ⟨21, (2, 3), [(5, 1)]⟩)],
     nidTerminal := (0, 3) }
 
-/-- non-vacuity of the node-merging case (nodes 1 and 2 are merged, 2 disappears; `MergeTermOk` holds as node 1 is not a terminal) -/
-example : Valid exampleGraph2 ∧ MergeTermOk exampleGraph2 20 21 true ∧
+/-- non-vacuity of the node-merging case (nodes 1 and 2 are merged, 2 disappears) -/
+example : Valid exampleGraph2 ∧
     (exampleGraph2.mergeEdges 20 21 true).toOption.map (fun g' => (g'.nodes.map (·.1), g'.denF [1, 5], g'.denF [2, 5], g'.isConsistent))
-      = some ([0, 1, 3], 1, 3, true) := by
+      = some ([0, 1, 3], 1, 3, true) :=
+  ⟨(valid_iff _).2 ⟨NoDup.of_noDupB (by decide), by decide⟩, by decide⟩
+
+/-- **Simplification** (`simplify`): whenever it returns on a valid graph, the result is valid again (it passes the
+consistency check), has the same terminals, denotes the same operator, and has at most as many nodes and at most as
+many edges (every successful `_simplify_step` is a `merge_edges` of two different edges and removes exactly one edge,
+`Ptn.Og.simplifyStep_sem`). -/
+theorem simplify_sem (g g' : Graph κ) (h : Valid g) (hr : g.simplify = .ok g') :
+    Valid g' ∧ g'.isConsistent = true ∧ g'.nidTerminal = g.nidTerminal ∧ (∀ w : Word, g'.denF w = g.denF w) ∧
+      g'.nodes.length ≤ g.nodes.length ∧ g'.edges.length ≤ g.edges.length := by
+  obtain ⟨_, hrel, hval⟩ := Ptn.Og.simplify_sem h.1 hr
+  exact ⟨hval h, (hval h).isConsistent, hrel.term, hrel.den, hrel.nodes, hrel.edges⟩
+
+/-- the same for graphs that are only structurally valid (no assumption on the level clause): structural validity
+and the denoted operator are kept -/
+theorem simplify_keeps (g g' : Graph κ) (h : SValid g) (hr : g.simplify = .ok g') :
+    SValid g' ∧ ∀ w : Word, g'.denF w = g.denF w := by
+  obtain ⟨hv, hrel, _⟩ := Ptn.Og.simplify_sem h hr
+  exact ⟨hv, hrel.den⟩
+
+/-- non-vacuity: `exampleGraph2` simplifies (the twin nodes 1, 2 cannot be merged from the end because their input
+operators differ, but edges 20, 21 are merged and then 30, 31 become parallel and are added: 4 nodes -> 3, 4 edges -> 2) and `exampleGraph` loses its parallel edge -/
+example : Valid exampleGraph2 ∧
+    (exampleGraph2.simplify).toOption.map (fun g' => (g'.nodes.length, g'.edges.length, g'.denF [1, 5], g'.denF [2, 5], g'.isConsistent))
+      = some (3, 2, 1, 3, true) ∧
+    (exampleGraph.simplify).toOption.map (fun g' => (g'.nodes.length, g'.edges.length, g'.denF [3, 2], g'.isConsistent))
+      = some (3, 2, 1, true) :=
+  ⟨(valid_iff _).2 ⟨NoDup.of_noDupB (by decide), by decide⟩, by decide, by decide⟩
+
+/-- **Adding another graph** (`add`; `addWith` is `add` with the iteration order of the two shared-id sets made explicit,
+as CPython's set iteration provides one; `Graph.add` iterates ascending): if both graphs are valid, each has two
+different terminal nodes, the two graphs have the same length (every terminal-to-terminal distance of `g` equals every
+such distance of `other`), and the orders cover all shared node resp. edge ids, then a successful call returns a valid
+graph -- it passes the consistency check -- that denotes exactly the sum of the two operators.
+"Leaves the other graph untouched" is trivial in the functional model (`other` is a value); on the Python side it is
+carried by the correspondence check (`other_unchanged`, `shares_objects`). -/
+theorem add_sem (g other g' : Graph κ) (sn se : List Int) (hg : Valid g) (ho : Valid other)
+    (htg : g.term false ≠ g.term true) (hto : other.term false ≠ other.term true)
+    (hsn : ∀ k, k ∈ dKeys g.nodes → k ∈ dKeys other.nodes → k ∈ sn)
+    (hse : ∀ k, k ∈ dKeys g.edges → k ∈ dKeys other.edges → k ∈ se)
+    (hlen : ∀ d j j', ReachFrom g d (g.term d) j (g.term (!d)) →
+      ReachFrom other d (other.term d) j' (other.term (!d)) → j = j')
+    (hr : g.addWith other sn se = .ok g') :
+    Valid g' ∧ g'.isConsistent = true ∧ ∀ w : Word, g'.denF w = g.denF w + other.denF w := by
+  obtain ⟨hv, hd⟩ := addWith_sem hg ho htg hto hsn hse hlen hr
+  exact ⟨hv, hv.isConsistent, hd⟩
+
+/-- the same for `Graph.add` (ascending iteration order of the shared ids) -/
+theorem add_asc_sem (g other g' : Graph κ) (hg : Valid g) (ho : Valid other)
+    (htg : g.term false ≠ g.term true) (hto : other.term false ≠ other.term true)
+    (hlen : ∀ d j j', ReachFrom g d (g.term d) j (g.term (!d)) →
+      ReachFrom other d (other.term d) j' (other.term (!d)) → j = j')
+    (hr : g.add other = .ok g') :
+    Valid g' ∧ g'.isConsistent = true ∧ ∀ w : Word, g'.denF w = g.denF w + other.denF w := by
+  obtain ⟨hv, hd⟩ := Ptn.Og.add_sem hg ho htg hto hlen hr
+  exact ⟨hv, hv.isConsistent, hd⟩
+
+/-- the structural core of `add_sem`: the graph assembled by `add` before its final `simplify` is `unionG g o` for the
+renamed operand `o`; it is valid and denotes the sum -/
+theorem add_union (g o : Graph κ) (U : UnionOk g o) (hg : Valid g) (ho : Valid o) (hlen : SameLength g o) :
+    Valid (unionG g o) ∧ ∀ w : Word, (unionG g o).denF w = g.denF w + o.denF w :=
+  ⟨valid_union U hg ho hlen, denF_union U⟩
+
+/-- non-vacuity of `add_sem`: `exampleGraph2` plus a second length-2 graph with colliding ids (nodes 0, 1 and edge 30 are
+shared): the sum has the words of both -/
+def exampleGraph3 : Graph ℤ :=
+  { nodes := [(0, ⟨0, [], [30], 0⟩), (1, ⟨1, [30], [7], 0⟩), (8, ⟨8, [7], [], 0⟩)],
+    edges := [(30, ⟨30, (0, 1), [(1, 2)]⟩), (7, ⟨7, (1, 8), [(5, 1), (6, 1)]⟩)],
+    nidTerminal := (0, 8) }
+
+example : Valid exampleGraph2 ∧ Valid exampleGraph3 ∧
+    (exampleGraph2.add exampleGraph3).toOption.map
+      (fun g' => (g'.denF [1, 5], g'.denF [2, 5], g'.denF [1, 6], g'.isConsistent)) = some (3, 3, 2, true) :=
+  ⟨(valid_iff _).2 ⟨NoDup.of_noDupB (by decide), by decide⟩,
+   (valid_iff _).2 ⟨NoDup.of_noDupB (by decide), by decide⟩, by decide⟩
+
+/-- **History**: every finite sequence of flips, renamings of node and edge ids, merges of two different edges,
+simplifications and additions of valid graphs of the same length that runs through keeps the graph valid -- it passes
+the consistency check after each step -- and changes the denoted operator only as `semSteps` says: each `flip` reverses
+the site order, each `add` adds the other operator. (`HistOk`: the side conditions of `merge_edges_sem` / `add_sem` hold
+at the graph each step is applied to.) -/
+theorem history (steps : List (Step κ)) (g g' : Graph κ) (h : Valid g) (hok : HistOk steps g)
+    (hr : runSteps steps g = .ok g') :
+    Valid g' ∧ g'.isConsistent = true ∧ g'.denF = semSteps steps g.denF := by
+  obtain ⟨hv, hd⟩ := history_sem steps h hok hr
+  exact ⟨hv, hv.isConsistent, hd⟩
+
+/-- non-vacuity of `history`: a history with all kinds of steps (without `add`, whose side conditions are exemplified
+above) runs through on `exampleGraph2`; two flips cancel -/
+example : Valid exampleGraph2 ∧
+    HistOk [Step.flip, .renameNode 2 9, .mergeEdges 20 21 false, .renameEdge 30 4, .flip, .simplify] exampleGraph2 ∧
+    (runSteps [Step.flip, .renameNode 2 9, .mergeEdges 20 21 false, .renameEdge 30 4, .flip, .simplify] exampleGraph2).toOption.map
+      (fun g' => (g'.denF [1, 5], g'.denF [2, 5], g'.denF [5, 1], g'.isConsistent)) = some (1, 3, 0, true) := by
   refine ⟨(valid_iff _).2 ⟨NoDup.of_noDupB (by decide), by decide⟩, ?_, by decide⟩
-  intro edge1 edge2 N2 h1 h2 _ ht _
-  have e1 : edge1 = ⟨20, (1, 3), [(5, 1)]⟩ := by
-    have : dGet? exampleGraph2.edges 20 = some ⟨20, (1, 3), [(5, 1)]⟩ := by decide
-    rw [this] at h1; exact (Option.some.inj h1).symm
-  subst e1
-  exact absurd ht (by decide)
+  simp only [HistOk, Step.okAt, ne_eq, true_and]
+  intros
+  refine ⟨by decide, ?_⟩
+  intros
+  trivial
 
 end Ptn.C16
